@@ -142,6 +142,11 @@ class SimSocket(_real_socket):
         if self.sim_delay > 0:
             self.sim_delay -= 1
             raise OSError(errno.ENOTCONN, 'simulated: connect still in progress')
+        pol = NET.policy
+        hook = getattr(pol, 'on_getpeername', None) if pol is not None else None
+        if hook is not None and hook(self):
+            # TCP: the peer reset the connection before it was accepted - accept() still returns the socket, getpeername() fails (AF_UNIX never does)
+            raise OSError(errno.ENOTCONN, 'simulated: the peer has gone already')
         super().getpeername()
         return self.sim_peer
 
